@@ -400,6 +400,9 @@ def unPrim (op : UnOp) (x : Val) : M Val :=
   | .not, .int w a => pure (.int w (bitNot w a))
   | _, _ => stuck "unary operator on a bad operand"
 
+/-- `String::hex` / `String::binary`: digits of the unsigned reading, upper case, no prefix, "0" for zero -/
+def digitsUpper (base n : Nat) : String := String.ofList ((Nat.toDigits base n).map Char.toUpper)
+
 def someV (v : Val) : Val := .enum "Option" "Some" [v]
 def noneV : Val := .enum "Option" "None" []
 
@@ -408,6 +411,28 @@ def zeroOf : Ty → Option Val
   | .bool => some (.bool false) | .i32 => some (.int .w32 0) | .i64 => some (.int .w64 0)
   | .u8 => some (.u8 0) | .char => some (.char 0)
   | _ => none
+
+/-- further methods of built-in types (kept apart from `primMeth` so that its case analysis stays small) -/
+def primMethExt (m : String) (recv : Val) (args : List Val) : M Val :=
+  match m, recv, args with
+  -- `overflowing_*`: the wrapped result and whether the exact result was unrepresentable
+  | "overflowing_add", .int w a, [.int w' b] =>
+    if w = w' then pure (.tuple [.int w (addW w a b), .bool (!w.inRange (a + b))]) else stuck "width"
+  | "overflowing_sub", .int w a, [.int w' b] =>
+    if w = w' then pure (.tuple [.int w (subW w a b), .bool (!w.inRange (a - b))]) else stuck "width"
+  | "overflowing_mul", .int w a, [.int w' b] =>
+    if w = w' then pure (.tuple [.int w (mulW w a b), .bool (!w.inRange (a * b))]) else stuck "width"
+  | "overflowing_neg", .int w a, [] => pure (.tuple [.int w (negW w a), .bool (!w.inRange (-a))])
+  -- more conversions (`pkgs/std/primitives.dora`)
+  | "to_char_unchecked", .int _ n, [] =>
+    if isScalar n then pure (.char n.toNat) else stuck "to_char_unchecked outside the Unicode scalar values"
+  | "len_utf8", .char n, [] =>
+    pure (.int .w32 (if n < 0x80 then 1 else if n < 0x800 then 2 else if n < 0x10000 then 3 else 4))
+  | "to_string_hex", .int w a, [] => pure (.str (digitsUpper 16 (w.toUnsigned a).toNat))
+  | "to_string_hex", .u8 n, [] => pure (.str (digitsUpper 16 n))
+  | "to_string_binary", .int w a, [] => pure (.str (digitsUpper 2 (w.toUnsigned a).toNat))
+  | "to_string_binary", .u8 n, [] => pure (.str (digitsUpper 2 n))
+  | _, _, _ => stuck ("unknown method " ++ m)
 
 /-- methods of built-in types (`recv.m(args)`) that need no call-back into the interpreter -/
 def primMeth (m : String) (recv : Val) (args : List Val) : M Val := do
@@ -470,7 +495,7 @@ def primMeth (m : String) (recv : Val) (args : List Val) : M Val := do
     | "set", .arr _, [i, v] => do elemSet recv i v; pure .unit
     | "set", .vec _, [i, v] => do elemSet recv i v; pure .unit
     | _, _, _ => stuck ("unknown method " ++ m)
-  | _, _, _ => stuck ("unknown method " ++ m)
+  | m, recv, args => primMethExt m recv args
 
 /-- static functions of built-in types (`Type::f(args)`) -/
 def primStatic (ty : Ty) (f : String) (args : List Val) : M Val :=
@@ -752,6 +777,24 @@ def step (p : Prog) (rec : Rec) (e : Expr) (env : Env) : M Val :=
       let c ← newCell (.int .w64 i)
       match ← catchLoop (rec b ((x, c) :: env)) with
       | .next => rec (.forLoop x (i + 1) hi b) env
+      | .broke => pure .unit
+    else pure .unit
+  | .forEach x coll b => do
+    -- `pkgs/std/collections.dora` ArrayIter / VecIter: the end is the size when the loop starts
+    match ← rec coll env with
+    | .ref a => do
+      match ← heapGet a with
+      | .arr vs => rec (.forEachLoop x a 0 vs.size b) env
+      | .vec vs => rec (.forEachLoop x a 0 vs.size b) env
+      | _ => stuck "for over a non-collection"
+    | _ => stuck "for over a non-collection"
+  | .forEachLoop x a i fin b =>
+    -- every step reads the element the collection holds NOW (`self.array(self.idx)` / `Vec::get`, bounds-checked)
+    if i < fin then do
+      let v ← elemGet (.ref a) (.int .w64 i)
+      let c ← newCell v
+      match ← catchLoop (rec b ((x, c) :: env)) with
+      | .next => rec (.forEachLoop x a (i + 1) fin b) env
       | .broke => pure .unit
     else pure .unit
   | .brk => throw .brk
